@@ -434,4 +434,96 @@ theorem holdings_eq_of_frame {w w' : World} (e2 : w'.bank = w.bank) (e3 : w'.tok
     (e5 : w'.tokens = w.tokens) (d : Denom) : w'.holdings d = w.holdings d := by
   cases d <;> simp [World.holdings, World.bankBal, World.tokBal, e2, e3, e4, e5]
 
+/-! ## Liveness: a legacy contract can be migrated -/
+
+/-- The reconciliation loop succeeds when every entry of the channel is under-booked and the reconciled
+values fit `Uint128`. -/
+theorem updateDenoms_ok (ch : String) (hold : Denom → Option Nat) (es : List (Key × ChanState))
+    (h : ∀ e ∈ es, e.1.1 = ch → ∃ bal, hold e.1.2 = some bal ∧ e.2.outstanding ≤ bal ∧ bal ≤ U128_MAX ∧
+      e.2.totalSent + (bal - e.2.outstanding) ≤ U128_MAX) (m : ChanMap) :
+    ∃ m', updateDenoms ch hold es m = .ok m' := by
+  induction es generalizing m with
+  | nil => exact ⟨m, rfl⟩
+  | cons e rest ih =>
+    obtain ⟨⟨c, d⟩, cs⟩ := e
+    have ih' := ih (fun e he => h e (List.mem_cons_of_mem _ he))
+    unfold updateDenoms
+    by_cases hc : c = ch
+    · obtain ⟨bal, hb, hle, hfit, htot⟩ := h ((c, d), cs) (by simp) hc
+      simp only [hc, if_true, hb]
+      have hsub : subU128 bal cs.outstanding = .ok (bal - cs.outstanding) := by simp [subU128, hle]
+      simp only [hsub, bind, Except.bind]
+      by_cases hz : bal - cs.outstanding = 0
+      · simp only [hz, if_true]; exact ih' m
+      · have e1 : cs.outstanding + (bal - cs.outstanding) = bal := by omega
+        have ha1 : addU128 cs.outstanding (bal - cs.outstanding) = .ok bal := by simp [addU128, e1, hfit]
+        have ha2 : addU128 cs.totalSent (bal - cs.outstanding) = .ok (cs.totalSent + (bal - cs.outstanding)) := by
+          simp [addU128, htot]
+        simp only [hz, if_false, ha1, ha2]
+        exact ih' _
+    · simp only [hc, if_false]; exact ih' m
+
+theorem not_newer_of_le_v3 {v : Version} (h : Version.le v MIGRATE_VERSION_3 = true) :
+    Version.lt CONTRACT_VERSION v = false := by
+  have hm : v.major = 0 := by
+    unfold Version.le Version.lt MIGRATE_VERSION_3 at h
+    by_cases h0 : (0 : Nat) = v.major
+    · exact h0.symm
+    · simp [h0] at h; omega
+  unfold Version.lt CONTRACT_VERSION
+  simp [hm]
+
+/-- **A legacy contract can be migrated**: stored by this contract at a version in `[0.11.1, 0.13.0]`, with
+the storage layout of that version (`gov_contract` inside the config iff ≤ 0.12.0-alpha1), at most one
+channel, and every entry of that channel under-booked with reconciled values that fit `Uint128` (real
+balances are `Uint128`; `total_sent + in-flight` fits unless ~2^128 tokens were ever sent): `migrate`
+succeeds. -/
+theorem migrate_ok_of_legacy {s : State} {gas : Option Nat} {hold : Denom → Option Nat}
+    (hname : s.versionName = CONTRACT_NAME) (hmin : Version.lt s.version MIGRATE_MIN_VERSION = false)
+    (hv3 : Version.le s.version MIGRATE_VERSION_3 = true)
+    (hlayout : if Version.le s.version MIGRATE_VERSION_2 = true then s.v1gov.isSome = true else s.v1gov = none)
+    (hone : s.channels.length ≤ 1)
+    (hent : ∀ e ∈ s.chan, ∃ bal, hold e.1.2 = some bal ∧ e.2.outstanding ≤ bal ∧ bal ≤ U128_MAX ∧
+      e.2.totalSent + (bal - e.2.outstanding) ≤ U128_MAX) :
+    ∃ s', migrate s gas hold = .ok s' := by
+  have hnew := not_newer_of_le_v3 hv3
+  have hub : ∀ s1 : State, s1.v1gov = none → s1.chan = s.chan → s1.channels = s.channels →
+      ∃ s2, updateBalances s1 hold = .ok s2 ∧ s2.v1gov = none := by
+    intro s1 hg1 hc1 hch1
+    cases hch : s1.channels with
+    | nil => exact ⟨s1, by simp [updateBalances, hch], hg1⟩
+    | cons ch rest =>
+      have hrest : rest = [] := by
+        rw [hch1] at hch; rw [hch] at hone; simpa using hone
+      subst hrest
+      obtain ⟨m, hm⟩ := updateDenoms_ok ch hold s1.chan (fun e he _ => hent e (by rw [← hc1]; exact he)) s1.chan
+      exact ⟨{ s1 with chan := m }, by simp [updateBalances, hch, hm, bind, Except.bind, pure, Except.pure], hg1⟩
+  have hck1 : check (s.versionName == CONTRACT_NAME) "cannotmigrate.name" = .ok () := by simp [check, hname]
+  have hck2 : check (!(Version.lt CONTRACT_VERSION s.version)) "cannotmigrate.newer" = .ok () := by simp [check, hnew]
+  have hck3 : check (!(Version.lt s.version MIGRATE_MIN_VERSION)) "cannotmigrate.old" = .ok () := by simp [check, hmin]
+  have fin : ∀ s2 : State, s2.v1gov = none → ∃ s', (do
+      let s3 ← (match gas with
+        | some g => do
+          let cfg ← loadConfig s2
+          pure { s2 with config := ⟨cfg.defaultTimeout, some g⟩ }
+        | none => pure s2 : Res State)
+      pure (if Version.lt s.version CONTRACT_VERSION then { s3 with version := CONTRACT_VERSION } else s3) : Res State) = .ok s' := by
+    intro s2 hg2
+    have hcfg : loadConfig s2 = .ok s2.config := by simp [loadConfig, hg2]
+    cases gas with
+    | none => exact ⟨_, rfl⟩
+    | some g => simp only [hcfg, bind, Except.bind]; exact ⟨_, rfl⟩
+  unfold migrate
+  simp only [hck1, hck2, hck3, hv3, if_true, bind, Except.bind]
+  split at hlayout
+  · rename_i hv2
+    obtain ⟨g, hg⟩ := Option.isSome_iff_exists.mp hlayout
+    obtain ⟨s2, h2, hg2⟩ := hub { s with admin := some g, config := ⟨s.config.defaultTimeout, none⟩, v1gov := none } rfl rfl rfl
+    simp only [hv2, if_true, hg, pure, Except.pure, h2]
+    exact fin s2 hg2
+  · rename_i hv2
+    obtain ⟨s2, h2, hg2⟩ := hub s hlayout rfl rfl
+    simp only [hv2, Bool.false_eq_true, if_false, pure, Except.pure, h2]
+    exact fin s2 hg2
+
 end CwPlus.Ics20
